@@ -8,7 +8,7 @@ import Gleece.Driver.Paths
 import Gleece.Driver.Graph
 import Gleece.Driver.Annot
 import Gleece.Driver.IRHandler
-import Gleece.Driver.TypesCheck
+import Gleece.Driver.ReduceCheck
 import Gleece.Driver.Cfg
 open Lean Gleece.Driver
 
@@ -17,7 +17,7 @@ def handlers : List (String × Handler) := [
   ("graph", graphHandler),
   ("annot", annotHandler),
   ("ir", irHandler),
-  ("proj", projHandler2),
+  ("proj", projHandler3),
   ("cfg", cfgHandler)
 ]
 
